@@ -6,6 +6,7 @@ import Balm.DepthAlgo
 import Balm.Impl.CandModel
 import Balm.Impl.SkipExcl
 import Balm.Impl.Nfvs
+import Balm.Impl.Block
 import Balm.TransNet
 /-!
 # `balmdriver` – line protocol between the Python harness and the Lean model
@@ -385,6 +386,11 @@ def handle (S : Session) (toks : List String) : Session × String :=
       let (d, o) := expandBfs S.ctx S.diag st lv sz
       ({ S with diag := d }, showOutcome o ++ " " ++ dumpDiag d)
     | _, _, _ => bad
+  | ["BLOCK", sz] => match optNat sz with
+    | some sz =>
+      let (d, o) := expandBlock S.ctx S.diag sz
+      ({ S with diag := d }, showOutcome o ++ " " ++ dumpDiag d)
+    | none => bad
   | ["DFS", st, lv, sz] => match st.toNat?, optNat lv, optNat sz with
     | some st, some lv, some sz =>
       let (d, o) := expandDfs S.ctx S.diag st lv sz
